@@ -90,3 +90,30 @@ Definition rpc_outcome (out_dflt in_dflt hdr : option N) (h d1 d2 : N) : rpc_out
       | Unspecified => RaceUnspecified
       end
   end.
+
+(** The same with a wait of [w] before the request can be sent (all streams of the connection in
+    use): the caller's clock runs from the moment the call is made, so a deadline that passes
+    while still waiting ends the call there and then - nothing is ever sent. *)
+Definition rpc_outcome_w (out_dflt in_dflt hdr : option N) (w h d1 d2 : N) : rpc_out :=
+  let e_in := effective in_dflt hdr in
+  let e_out := effective out_dflt hdr in
+  match layer_outcome e_out w with
+  | CutOff t => CallerTimeoutError t
+  | Unspecified => RaceUnspecified
+  | Normal _ =>
+      match layer_outcome e_in h with
+      | Unspecified => RaceUnspecified
+      | Normal t =>
+          match layer_outcome e_out (w + d1 + t + d2) with
+          | Normal t' => Response t'
+          | CutOff t' => CallerTimeoutError t'
+          | Unspecified => RaceUnspecified
+          end
+      | CutOff t =>
+          match layer_outcome e_out (w + d1 + t + d2) with
+          | Normal t' => RequestTimeoutStatus t'
+          | CutOff t' => CallerTimeoutError t'
+          | Unspecified => RaceUnspecified
+          end
+      end
+  end.
